@@ -59,6 +59,11 @@ def run(rep, tier, rng):
                             {"op": "power", "alg": al, "v": v, "e": e, "obs": c.obs_json(o), "py": f"A.binding_power(v, {e})"},
                             ("power", al, tuple(v), e), nontrivial=any(v),
                             sample={"op": "binding_power", "alg": al, "v": v, "exponent": e, "observed": c.obs_json(o)} if d == 4 and e == 3 else None)
+                        if d <= 9 and abs(e) <= 3:
+                            oi = c.observe(lambda: A.binding_power(np.array(v, dtype=int), e))     # integer-typed array
+                            add(f"check_power {al} {c.zlist(v)} {c.b(e < 0)} {c.nat(abs(e))} {tol} {obs_t(oi)}",
+                                {"op": "power-int-dtype", "alg": al, "v": v, "e": e, "obs": c.obs_json(oi), "py": f"A.binding_power(np.array(v, dtype=int), {e})"},
+                                ("power-int", al, tuple(v), e), nontrivial=any(v))
                         o2 = c.observe(lambda: (SemanticPointer(vf, vocab=voc) ** e).v)
                         add(f"check_power {al} {c.zlist(v)} {c.b(e < 0)} {c.nat(abs(e))} {tol} {obs_t(o2)}",
                             {"op": "sp-power", "alg": al, "v": v, "e": e, "obs": c.obs_json(o2),
